@@ -167,15 +167,20 @@ Definition entry_eqb_names (a b : entry) : bool :=
    harness saw violated are passed in `sep` and get one KTraceRule case each
    (so that a violation matched by a known finding cannot hide another one). *)
 Definition trace_violations (t : list call) : list (N * N) := fst (monitor t).
+(* complete traces: the guards, then the final condition 13 (a group holding painting
+   was never composited), reported at the position after the last call *)
+Definition final_violations (t : list call) : list (N * N) :=
+  let '(v, st) := monitor t in
+  v ++ (if complete st then [] else [(N.of_nat (length t), 13)]).
 Definition trace_code (n : N) (sep : list N) (t : list call) : N :=
   let '(v, st) := monitor t in
-  match filter (fun x => negb (Protocol.mem (snd x) sep)) v with
+  match filter (fun x => negb (Protocol.mem (snd x) sep)) (final_violations t) with
   | (_, r) :: _ => 20 + r
   | [] => if negb (Protocol.npages st =? n) then 19
           else if negb (balanced st) then 30 else 0
   end.
 Definition trace_rule_code (r : N) (t : list call) : N :=
-  if existsb (fun x => snd x =? r) (trace_violations t) then 20 + r else 0.
+  if existsb (fun x => snd x =? r) (final_violations t) then 20 + r else 0.
 
 Definition oq_eqb (o : oq) (q : Q) : bool :=
   match o with QV v => Qeq_bool v q | QBad => false end.
@@ -256,7 +261,8 @@ Definition model_out (c : case) : mout :=
   | KGather _ boxes _ => MGather (map gather boxes)
   | KDoc zoom vpages geoms _ _ => MDoc (model_doc zoom vpages geoms) (model_outline vpages)
   | KMeta els _ => MMetaOut (get_metadata els)
-  | KTrace _ _ t | KTraceRule _ t | KTracePrefix _ t => let '(v, st) := monitor t in MViol v (Protocol.npages st)
+  | KTrace _ _ t | KTraceRule _ t => let '(v, st) := monitor t in MViol (final_violations t) (Protocol.npages st)
+  | KTracePrefix _ t => let '(v, st) := monitor t in MViol v (Protocol.npages st)
   | KExpect gen _ _ _ => let ps := expect_pages gen in
                          let '(ls, ans) := resolve ps in MDoc [] (model_outline ps)
   | KTile x y _ => MTile (tile f32 x y)
